@@ -175,7 +175,7 @@ pub const THOROUGH_FULL_LIMIT: usize = 200 * 1024;
 pub const QUICK_CHUNK_BLOCK_STRIDE: usize = 16;
 /// quick: a seed of n > 4096 bytes is swept at every k-th item-boundary offset
 /// (by rank), k = max(1, n / QUICK_STRIDE_UNIT).
-pub const QUICK_STRIDE_UNIT: usize = 4096;
+pub const QUICK_STRIDE_UNIT: usize = 2048;
 
 pub fn is_chunk_block(seed: &Seed) -> bool {
     seed.family == "block" && seed.name.contains(".chunk#")
@@ -225,7 +225,7 @@ impl Tuning {
                 if self.thorough {
                     4
                 } else {
-                    3
+                    2
                 }
             }
             "header" => {
